@@ -34,7 +34,27 @@ def run(ck):
         cases.append(c)
     ck.stream("random-schedules", cases, "C03_lts", "C03_lts", "C03_ok",
               nontrivial=lambda c: c[1] >= 2 or len(c[6]) > 30, sig=lambda c, e, o: "lts", timeout=1500)
-    return ck.finish(rule="(1) the three pre-repair witness schedules and every placement of the close inside an attach, for each "
+    transport_release(ck)
+    return ck.finish(rule="(3) transport adapters: " + RELEASE_RULE + " (1) the three pre-repair witness schedules and every placement of the close inside an attach, for each "
                           "way a stream ends (Close, replaced, idle) and for RTP and FLV consumers; (2) random schedules of publisher / "
                           "closer / attach / stop / delivery goroutines (1-3 consumers, scripted consumer panics), 70% followed by a fair "
                           "drain so that the threads come to rest; all replayed through the schedule points on a real media.Stream")
+
+
+# ---------------------------------------------------------------- transport adapters
+import trgen as T
+
+RELEASE_RULE = ("1-3 real clients of mixed transports (RTSP/TCP, RTSP/UDP, ws-rtsp, WSP, HTTP-FLV, ws-FLV) attach to a registered "
+                "media.Stream at scripted positions of a 4-14 packet script, some stop mid-stream (TEARDOWN or dropped connection), "
+                "then the stream ends (Close / replaced / idle); after every event: stream.ConsumerCount, the active RTSP / FLV / WSP "
+                "connection counters relative to their values before the first attach, which connections have ended (EOF at the "
+                "client), media.Count; the oracle ok_release demands the release specification's run exactly.")
+
+def transport_release(ck):
+    rng = ck.rng
+    n = 900 if ck.thorough else 70
+    pool = [T.TCP, T.TCP, T.UDP, T.WSRTSP, T.WSP, T.HTTPFLV, T.WSFLV]
+    cases = [T.gen_case(rng, False, pool, max_pkts=10, allow_big=False) for _ in range(n)]
+    ck.stream("transport-release", cases, None, "C03_transports", "C03_wire_ok", compare=False,
+              nontrivial=lambda c: len(c[2]) >= 2 or any(e[0] == 2 for e in c[3]),
+              sig=lambda c, e, o: "release-" + "-".join(sorted({str(cl[0]) for cl in c[2]})), timeout=1500)
